@@ -71,15 +71,18 @@ def run(ctx):
                     else:
                         m = UBXMessage(key[0:1], key[1:2], mode)
                     f = m.serialize()
-                    ref = UBXReader.parse(f, msgmode=mode)
+                    # SETPOLL must resolve the mode whatever the other parse options are
+                    val, bfo = [(1, True), (1, False), (0, True), (0, False)][n % 4]
+                    ref = UBXReader.parse(f, msgmode=mode, validate=val, parsebitfield=bfo)
             except Exception:  # pylint: disable=broad-except
                 continue
             n += 1
             ctx.nontrivial.add(hash((name, mode, len(f))))
-            inp = {"op": "SETPOLL", "name": name, "mode": mode, "hex": f[:80].hex(), "total_len": len(f), "generated_mode": "SET" if mode == 1 else "POLL"}
+            inp = {"op": "SETPOLL", "name": name, "mode": mode, "hex": f[:80].hex(), "total_len": len(f), "generated_mode": "SET" if mode == 1 else "POLL",
+                   "validate": val, "parsebitfield": bfo}
             try:
                 with impl.quiet():
-                    sp = UBXReader.parse(f, msgmode=3)
+                    sp = UBXReader.parse(f, msgmode=3, validate=val, parsebitfield=bfo)
             except Exception as e:  # pylint: disable=broad-except
                 ctx.fail("setpoll-raises", inp, "same message as in the true mode", type(e).__name__)
                 ctx.failures[-1]["frame"] = (key, mode, len(f))
@@ -88,7 +91,11 @@ def run(ctx):
                 ctx.fail("setpoll-differs", inp, "mode %d, %s" % (mode, ref.identity), "mode %d, %s" % (sp.msgmode, sp.identity))
                 ctx.failures[-1]["frame"] = (key, mode, len(f))
             else:
-                good.append((f, ref, name, mode))
+                try:
+                    with impl.quiet():
+                        good.append((f, UBXReader.parse(f, msgmode=mode), name, mode))    # default options, for the reader
+                except Exception:  # pylint: disable=broad-except
+                    pass
     ctx.evaluations += n
     ctx.count("setpoll_cases", n)
     reader_level(ctx, rng, good)
